@@ -19,6 +19,7 @@ case "$which" in
   replace) test=TestStandinReplace; obl="regexp2.replace#bounded-standin";;
   groups)  test=TestStandinGroups;  obl="syntax.parser#bounded-standin-groups";;
   stack)   test=TestStandinStack;   obl="regexp2.executeDefault#bounded-standin-stack";;
+  class)   test=TestStandinClass;   obl="syntax.scanCharSet#bounded-standin-class";;
   *) echo "ENGINE-ERROR unknown stand-in $which"; exit 2;;
 esac
 export STANDIN_KNOWN=$(python3 - "$HERE/known_findings.json" "$prop" "$obl" <<'PY'
@@ -67,6 +68,10 @@ if which=="mirror":
     rec={"function":"executeDefault (right-to-left arms against left-to-right arms), with the parser/reducer/writer in front of it",
      "bound":"%d patterns from an abstract syntax with a mirror operation (items = atom a b [ab] [^a] . \\w - \\d [^ab] \\W \\s [a-] 1 (?:a|-) [\\w-[a]] x quantifier none * + ? *? +? {2} {1,2} ??; 1-2 items, 3-item sequences and alternations over %s, literals before/after an item, quantified groups (also item+literal bodies), named captures (nested, alternated, looped), atomic groups, ^ $ \\A \\z \\b \\B \\G, the four lookarounds, named backreferences); options None, IgnoreCase, Multiline%s; every text over {a,b,-,1} (over {a,-,\\n} for Multiline) of length 0..%d plus 13 longer texts; every start offset; both directions of the pair"%(pats,"20 items" if lvl>=2 else "12 items",", Singleline|Multiline, IgnoreCase|Multiline, ExplicitCapture" if lvl>=2 else "",n),
      "checks":"find(mirror(P), RightToLeft, reverse(text), n-s) is the mirror image of find(P, text, s): both fail or index' = n-index-length, same length, every capture of every named group mirrored, in the same order"}
+elif which=="class":
+    rec={"function":"the class parser (scanCharSet, shorthand escapes, negation, subtraction) and the IgnoreCase closure of classes, up to the CharSet the proofs of C16 start from",
+     "bound":"%d class expressions: one or two items out of a z A 0 _ - U+00E9 U+007F a-c A-C x-z 0-5 space-/ U+0000-a \\d \\D \\w \\W \\s \\S (%s two-item combinations), plain and negated, without and with one of six subtracted classes (one of them with its own subtraction); shapes ^C$, ^C+$, x?C; options None, IgnoreCase, ECMAScript, IgnoreCase|ECMAScript, RightToLeft (subtraction where the syntax has it; the complement shorthands left out under IgnoreCase, where the case mapping of U+0130 and U+212A has no agreed meaning); every rune of U+0000..U+007F and ten runes above"%(pats,"all" if lvl>=2 else "half of the"),
+     "checks":"the engine matches the one-rune text exactly when set algebra over the parts of the expression says the rune is a member (items united, closed under simple case folding with IgnoreCase, complemented if negated, minus the subtracted class)"}
 elif which=="stack":
     rec={"function":"executeDefault with a backtracking stack limit (the interpreter's push/pop discipline between two calls of ensureStorage, unwinding after a capped growth step)",
      "bound":"%d patterns (%s of the mirror grammar's patterns plus 8 hand-picked backtracking-heavy ones), both directions; every text over {a,b,-} of length 0..3 plus 6 longer texts; limits 0 1 2 7 8 9 31 32 33 63 64 65 66 100 127 128 129 200 257 1000 against the unlimited run"%(pats,"all" if lvl>=2 else "every fourth"),
